@@ -208,18 +208,26 @@ pub fn operation(p: &mut Parser<'_>, mut skip: Skip) -> Result<Option<Skip>> {
             stack.push((open.clone(), priority, extra));
         }
 
-        while let Some(prev) = stack.last_mut() {
+        while let Some(prev) = stack.pop() {
             match priority.cmp(&prev.1) {
                 Ordering::Less => {
                     p.close_at(&prev.0, OPERATION)?;
-                    *prev = (prev.0.clone(), priority, extra);
-                    continue;
+
+                    // The group that was just closed becomes the first operand
+                    // of the enclosing group, unless there is an enclosing
+                    // group which binds at least as tightly as this operator.
+                    if stack.last().map(|e| e.1 < priority).unwrap_or(true) {
+                        stack.push((prev.0, priority, extra));
+                        break;
+                    }
                 }
                 Ordering::Greater => {
+                    stack.push(prev);
                     stack.push((cur, priority, extra));
                     break;
                 }
                 Ordering::Equal => {
+                    stack.push(prev);
                     break;
                 }
             }
